@@ -489,6 +489,24 @@ func c06run(sc *sim.Scenario, env *sim.Env, st *sim.Stats, observe bool) c06resu
 				j := firstDiff(target[:post.Len], post.Bytes)
 				return viol(i, "target_buffer_stale", "after Finalize the caller's target buffer differs from Bytes() at offset %d: target %02x, Bytes() %02x", j, target[j], post.Bytes[j])
 			}
+			if !wantOK && !seg.active() && sc.Seed&64 != 0 {
+				// the same calls on an emitter without a target buffer (a measuring pass): a
+				// Finalize that must fail fails there too (one that would succeed has nowhere to
+				// write its operands, so that case is not asked for)
+				ne := asm.NewEmitter(nil, gentext)
+				for _, o := range sc.Ops[:i] {
+					if o.K != "finalize" && o.K != "clone" && o.K != "append" {
+						asmApply(ne, o)
+					}
+				}
+				var nerr error
+				if np, _ := sim.RecoverLib(func() { nerr = ne.Finalize() }); !np && nerr == nil {
+					return viol(i, "finalize_outcome", "on an emitter without a target buffer that received the same calls, Finalize returned nil although %d reference(s) cannot be resolved (first: %+v)", len(failing), first(failing))
+				}
+				if st != nil {
+					st.Probe("finalize_on_nil_target_twin")
+				}
+			}
 			if (err == nil) != wantOK {
 				return viol(i, "finalize_outcome", "Finalize returned %v but model says ok=%v (%d failing references, first: %+v)", err, wantOK, len(failing), first(failing))
 			}
@@ -530,11 +548,11 @@ func c06run(sc *sim.Scenario, env *sim.Env, st *sim.Stats, observe bool) c06resu
 			} else {
 				// an error value already handed to the caller keeps saying what it said
 				for _, k := range kept {
-					if now := k.err.Error(); now != k.text {
-						return viol(i, "error_text_changed", "the error returned by an earlier Finalize read %q when it was returned and reads %q now (after a later Finalize failed with %q)", k.text, now, err.Error())
+					if now := sim.ErrText(k.err); now != k.text {
+						return viol(i, "error_text_changed", "the error returned by an earlier Finalize read %q when it was returned and reads %q now (after a later Finalize failed with %q)", k.text, now, sim.ErrText(err))
 					}
 				}
-				kept = append(kept, keptErr{err, err.Error()})
+				kept = append(kept, keptErr{err, sim.ErrText(err)})
 				failedBefore = true
 				res.postFail = append(res.postFail, post.Bytes)
 				for j := range post.Bytes {
@@ -542,11 +560,11 @@ func c06run(sc *sim.Scenario, env *sim.Env, st *sim.Stats, observe bool) c06resu
 						return viol(i, "failed_finalize_touched_other_byte", "failed Finalize (%v) changed byte at offset %d (%02x -> %02x), not an operand byte of a label reference", err, j, pre.Bytes[j], post.Bytes[j])
 					}
 				}
-				if !errNamesFailing(err.Error(), failing, m) {
-					return viol(i, "error_names_nothing_failing", "Finalize error %q does not name any failing reference (failing: %+v)", err.Error(), failing)
+				if !errNamesFailing(sim.ErrText(err), failing, m) {
+					return viol(i, "error_names_nothing_failing", "Finalize error %q does not name any failing reference (failing: %+v)", sim.ErrText(err), failing)
 				}
-				if r := errNamesOnlySound(err.Error(), failing, m); r != nil {
-					return viol(i, "error_names_sound_reference", "Finalize error %q gives the location of the reference at %#x (operand %#x) to %s, which resolves and is in range, and of none of the failing ones (%+v)", err.Error(), r.InsAddr, r.Operand, r.Label, failing)
+				if r := errNamesOnlySound(sim.ErrText(err), failing, m); r != nil {
+					return viol(i, "error_names_sound_reference", "Finalize error %q gives the location of the reference at %#x (operand %#x) to %s, which resolves and is in range, and of none of the failing ones (%+v)", sim.ErrText(err), r.InsAddr, r.Operand, r.Label, failing)
 				}
 				if st != nil {
 					unres, rng := false, false
